@@ -1342,3 +1342,544 @@ Proof.
   - intros y Hy. destruct (H2 y Hy) as [x [Hx [E1 E2]]]. apply existsb_exists. exists x. split; auto.
     apply andb_true_iff. split; [apply Nat.eqb_eq; auto|apply fit_eqb_eq; auto].
 Qed.
+
+(* ------------------------------------------------------------------------------------- *)
+(* I. the clauses of the oracle as propositions                                            *)
+(* ------------------------------------------------------------------------------------- *)
+Theorem clause_sound_iff : forall c ob,
+  clause_sound c ob = true <->
+  forall x, In x (o_out ob) ->
+    valid (fitness x) = true /\
+    (In x (preevaluated c) \/
+     exists i, In i (unevaluated c) /\ uid i = uid x /\
+               fitness x = spec_fit (case_objective c) (geff_of ob i)).
+Proof.
+  intros c ob. unfold clause_sound. rewrite forallb_forall. split; intros H x Hx; specialize (H x Hx).
+  - apply andb_true_iff in H. destruct H as [Hv H]. split; auto. apply orb_true_iff in H. destruct H as [H|H].
+    + left. apply existsb_exists in H. destruct H as [i [Hi E]]. apply ind_eqb_eq in E. subst. exact Hi.
+    + right. apply existsb_exists in H. destruct H as [i [Hi E]]. apply andb_true_iff in E.
+      destruct E as [E1 E2]. apply Nat.eqb_eq in E1. apply fit_eqb_eq in E2. eauto.
+  - destruct H as [Hv H]. apply andb_true_iff. split; auto. apply orb_true_iff. destruct H as [H|[i [Hi [E1 E2]]]].
+    + left. apply existsb_exists. exists x. split; auto. apply ind_eqb_eq. reflexivity.
+    + right. apply existsb_exists. exists i. split; auto. apply andb_true_iff.
+      split; [apply Nat.eqb_eq; auto|apply fit_eqb_eq; auto].
+Qed.
+
+Theorem clause_passthrough_iff : forall c ob,
+  clause_passthrough c ob = true <-> forall i, In i (preevaluated c) -> In i (o_out ob).
+Proof.
+  intros c ob. unfold clause_passthrough. rewrite forallb_forall. split; intros H i Hi; specialize (H i Hi).
+  - apply existsb_exists in H. destruct H as [x [Hx E]]. apply ind_eqb_eq in E. subst. exact Hx.
+  - apply existsb_exists. exists i. split; auto. apply ind_eqb_eq. reflexivity.
+Qed.
+
+Theorem clause_no_reevaluation_iff : forall c ob,
+  clause_no_reevaluation c ob = true <->
+  forall g, In g (metric_graphs (o_log ob)) -> exists i, In i (unevaluated c) /\ geff_of ob i = g.
+Proof.
+  intros c ob. unfold clause_no_reevaluation. rewrite forallb_forall. split; intros H g Hg; specialize (H g Hg).
+  - apply existsb_exists in H. destruct H as [i [Hi E]]. apply Nat.eqb_eq in E. eauto.
+  - destruct H as [i [Hi E]]. apply existsb_exists. exists i. split; auto. apply Nat.eqb_eq. exact E.
+Qed.
+
+Lemma in_out_iff : forall ob i, in_out ob i = true <-> exists x, In x (o_out ob) /\ uid x = uid i.
+Proof.
+  intros. unfold in_out. rewrite existsb_exists. split; intros [x [Hx E]]; exists x; split; auto;
+    apply Nat.eqb_eq; auto.
+Qed.
+
+Theorem clause_left_out_iff : forall c ob,
+  clause_left_out c ob = true <->
+  forall i, In i (unevaluated c) -> valid (spec_fit (case_objective c) (geff_of ob i)) = false ->
+            ~ exists x, In x (o_out ob) /\ uid x = uid i.
+Proof.
+  intros c ob. unfold clause_left_out. rewrite forallb_forall. split; intros H i Hi.
+  - intros Hv Hex. specialize (H i Hi). rewrite Hv in H. simpl in H. apply negb_true_iff in H.
+    apply in_out_iff in Hex. congruence.
+  - apply orb_true_iff. destruct (valid (spec_fit (case_objective c) (geff_of ob i))) eqn:Ev; auto.
+    right. apply negb_true_iff. destruct (in_out ob i) eqn:Eo; auto.
+    exfalso. apply (H i Hi Ev). apply in_out_iff. exact Eo.
+Qed.
+
+Theorem clause_callback_iff : forall ob,
+  clause_callback ob = true <-> Permutation (callback_graphs (o_log ob)) (metric0_graphs (o_log ob)).
+Proof. intros. unfold clause_callback. apply (perm_b_iff nat Nat.eqb Nat.eqb_eq). Qed.
+
+(* ------------------------------------------------------------------------------------- *)
+(* J. the oracle accepts the behaviour of the model (the clauses are theorems of the model) *)
+(* ------------------------------------------------------------------------------------- *)
+Definition model_observed (c : case) : observed :=
+  match model_run (fun l => l) c with
+  | (Ok out, lg) => {| o_raised := false; o_out := out; o_log := lg; o_deleg := model_deleg c |}
+  | (RaiseValueError, lg) => {| o_raised := true; o_out := []; o_log := lg; o_deleg := model_deleg c |}
+  end.
+
+(* the graph an individual is evaluated on according to the model of the chosen dispatcher *)
+Definition case_eff (c : case) (i : ind) : graph :=
+  if c_par c then eff_graph (case_delegate c) (c_pop c) i else gr i.
+
+(* looking the delegate's answer up by graph label finds the graph computed for the individual
+   (true without delegate; with a delegate it needs labels that identify the individuals) *)
+Definition labels_ok (c : case) : Prop :=
+  forall i, In i (to_evaluate (c_pop c)) -> computed_for (model_deleg c) (gr i) = case_eff c i.
+
+Lemma model_run_id_par : forall c, c_par c = true ->
+  model_run (fun l => l) c = evaluate_with_cache (case_objective c) (case_delegate c) (case_timer c) (c_pop c).
+Proof. intros c H. unfold model_run. rewrite H. reflexivity. Qed.
+
+Lemma model_run_id_seq : forall c, c_par c = false ->
+  model_run (fun l => l) c = sequential_evaluate (case_objective c) (case_timer c) (c_pop c).
+Proof. intros c H. unfold model_run. rewrite H. reflexivity. Qed.
+
+Lemma case_metrics_nonempty : forall c, c_nmetrics c <> 0 -> metrics (case_objective c) <> [].
+Proof.
+  intros c H. unfold case_objective, objective_of_table. simpl.
+  destruct (c_nmetrics c); [congruence|]. simpl. discriminate.
+Qed.
+
+(* what the model returns, for either dispatcher, in the vocabulary of the oracle *)
+Lemma model_observed_facts : forall c,
+  NoDup (map uid (to_evaluate (c_pop c))) ->
+  exists out lg,
+    model_run (fun l => l) c = (Ok out, lg) /\
+    (forall x, In x out ->
+       valid (fitness x) = true /\
+       (In x (c_pop c) \/
+        exists i, In i (c_pop c) /\ valid (fitness i) = false /\
+                  x = evaluated_ind (case_objective c) (case_eff c i) i)) /\
+    (forall g, In g (metric_graphs lg) ->
+       exists i, In i (c_pop c) /\ valid (fitness i) = false /\ g = case_eff c i) /\
+    (forall i, In i (to_skip (c_pop c)) -> In i out) /\
+    (metrics (case_objective c) <> [] -> callback_graphs lg = metric0_graphs lg).
+Proof.
+  intros c ND. unfold case_eff. destruct (c_par c) eqn:Ep.
+  - rewrite (model_run_id_par c Ep).
+    destruct (eval_sound_par (case_objective c) (case_delegate c) (case_timer c) (c_pop c) ND)
+      as [out [lg [E [H1 H2]]]].
+    exists out, lg. split; [exact E|]. split; [exact H1|]. split; [exact H2|]. split.
+    + intros i Hi. rewrite (evaluate_with_cache_closed _ _ _ _ ND) in E. inversion E; subst out lg.
+      unfold mp_spec.
+      destruct (survivors (case_objective c) (cgc (remote_compute_cache (case_delegate c) (rev (c_pop c))))
+                          (case_timer c) (to_evaluate (rev (c_pop c))) ++ to_skip (rev (c_pop c))) eqn:Es.
+      * apply app_eq_nil in Es. destruct Es as [_ Es]. rewrite to_skip_rev in Es.
+        exfalso. destruct (to_skip (c_pop c)); [exact Hi|]. simpl in Es. apply app_eq_nil in Es. destruct Es; discriminate.
+      * rewrite <- Es. apply in_or_app. right. rewrite to_skip_rev. apply in_rev_iff. exact Hi.
+    + intros Hne. destruct (callback_log_par (case_objective c) (case_delegate c) (case_timer c) (c_pop c) ND) as [C1 C2].
+      rewrite E in C1, C2. simpl in C1, C2. rewrite C1, (C2 Hne). reflexivity.
+  - rewrite (model_run_id_seq c Ep).
+    destruct (eval_sound_seq (case_objective c) (case_timer c) (c_pop c) ND) as [out [lg [E [H1 H2]]]].
+    exists out, lg. split; [exact E|]. split; [exact H1|]. split; [exact H2|]. split.
+    + intros i Hi. rewrite (sequential_evaluate_closed _ _ _ ND) in E. inversion E; subst out lg.
+      unfold seq_spec. apply in_or_app. right. exact Hi.
+    + intros Hne. destruct (callback_log_seq (case_objective c) (case_timer c) (c_pop c) ND) as [C1 C2].
+      rewrite E in C1, C2. simpl in C1, C2. rewrite C1, (C2 Hne). reflexivity.
+Qed.
+
+Theorem oracle_accepts_model_partial : forall c,
+  in_scope c = true -> c_nmetrics c <> 0 -> labels_ok c ->
+  let ob := model_observed c in
+  o_raised ob = false /\ clause_sound c ob = true /\ clause_passthrough c ob = true /\
+  clause_no_reevaluation c ob = true /\ clause_left_out c ob = true /\ clause_callback ob = true.
+Proof.
+  intros c Hs Hn Hl. apply in_scope_iff in Hs. destruct Hs as [ND Hdis].
+  pose proof (case_metrics_nonempty c Hn) as Hne.
+  destruct (model_observed_facts c ND) as [out [lg [E [F1 [F2 [F3 F4]]]]]].
+  unfold model_observed. rewrite E. cbn zeta.
+  assert (G : forall i, In i (to_evaluate (c_pop c)) ->
+              geff_of {| o_raised := false; o_out := out; o_log := lg; o_deleg := model_deleg c |} i = case_eff c i).
+  { intros i Hi. unfold geff_of. simpl. apply Hl. exact Hi. }
+  split; [reflexivity|]. split; [|split; [|split; [|split]]].
+  - apply clause_sound_iff. simpl. intros x Hx. destruct (F1 x Hx) as [Hv [Hin|[i [Hi [Hiv ->]]]]].
+    + split; auto. left. apply to_skip_valid. auto.
+    + split; auto. right. exists i. assert (Hi' : In i (to_evaluate (c_pop c))) by (apply to_evaluate_In; auto).
+      split; [exact Hi'|]. split; [reflexivity|]. simpl. rewrite (G i Hi'). apply objective_value_spec. exact Hne.
+  - apply clause_passthrough_iff. simpl. exact F3.
+  - apply clause_no_reevaluation_iff. simpl. intros g Hg. destruct (F2 g Hg) as [i [Hi [Hiv ->]]].
+    assert (Hi' : In i (to_evaluate (c_pop c))) by (apply to_evaluate_In; auto). exists i. split; auto.
+  - apply clause_left_out_iff. simpl. intros i Hi Hv [x [Hx Hu]].
+    rewrite (G i Hi) in Hv. destruct (F1 x Hx) as [Hvx [Hin|[j [Hj [Hjv ->]]]]].
+    + apply (Hdis i Hi). rewrite <- Hu. apply in_map. apply to_skip_valid. auto.
+    + simpl in Hu. assert (Hj' : In j (to_evaluate (c_pop c))) by (apply to_evaluate_In; auto).
+      assert (j = i) by (eapply (NoDup_map_inj_in _ _ uid (to_evaluate (c_pop c))); eauto). subst j.
+      simpl in Hvx. rewrite (objective_value_spec _ _ Hne) in Hvx. congruence.
+  - apply clause_callback_iff. simpl. rewrite (F4 Hne). apply Permutation_refl.
+Qed.
+
+(* ---- counting ------------------------------------------------------------------------------- *)
+Lemma count_app : forall A (p : A -> bool) a b, count p (a ++ b) = count p a + count p b.
+Proof. intros. unfold count. rewrite filter_app, app_length. reflexivity. Qed.
+
+Lemma count_rev : forall A (p : A -> bool) l, count p (rev l) = count p l.
+Proof. intros. unfold count. rewrite filter_rev', rev_length. reflexivity. Qed.
+
+Lemma count_map : forall A B (f : A -> B) (p : B -> bool) l, count p (map f l) = count (fun x => p (f x)) l.
+Proof.
+  intros. unfold count. induction l as [|a l IH]; simpl; [reflexivity|].
+  destruct (p (f a)); simpl; rewrite IH; reflexivity.
+Qed.
+
+Lemma count_ext_in : forall A (p q : A -> bool) l, (forall x, In x l -> p x = q x) -> count p l = count q l.
+Proof.
+  intros A p q l H. unfold count. induction l as [|a l IH]; simpl; [reflexivity|].
+  rewrite (H a) by (simpl; auto). destruct (q a); simpl; rewrite IH; auto; intros; apply H; simpl; auto.
+Qed.
+
+Lemma count_filter : forall A (p q : A -> bool) l, count p (filter q l) = count (fun x => q x && p x) l.
+Proof.
+  intros. unfold count. induction l as [|a l IH]; simpl; [reflexivity|].
+  destruct (q a); simpl; [destruct (p a); simpl; rewrite IH; reflexivity|exact IH].
+Qed.
+
+Lemma count_zero : forall A (p : A -> bool) l, (forall x, In x l -> p x = false) -> count p l = 0.
+Proof.
+  intros A p l H. unfold count. induction l as [|a l IH]; simpl; [reflexivity|].
+  rewrite (H a) by (simpl; auto). apply IH. intros; apply H; simpl; auto.
+Qed.
+
+Lemma count_uid_one : forall l f,
+  NoDup (map uid l) -> In f l -> count (fun j => Nat.eqb (uid j) (uid f)) l = 1.
+Proof.
+  induction l as [|a l IH]; simpl; intros f ND Hf; [tauto|].
+  inversion ND as [|? ? Hn ND']; subst. unfold count in *. simpl. destruct Hf as [->|Hf].
+  - rewrite Nat.eqb_refl. simpl. f_equal. apply (count_zero _ _ l).
+    intros x Hx. apply Nat.eqb_neq. intros E. apply Hn. rewrite <- E. apply in_map. exact Hx.
+  - destruct (Nat.eqb (uid a) (uid f)) eqn:E.
+    + apply Nat.eqb_eq in E. exfalso. apply Hn. rewrite E. apply in_map. exact Hf.
+    + apply IH; auto.
+Qed.
+
+Lemma count_index_snd : forall (p : ind -> bool) l k,
+  count (fun ki => p (snd ki)) (index_from k l) = count p l.
+Proof. intros. rewrite <- (index_from_snd l k) at 2. rewrite count_map. reflexivity. Qed.
+
+(* ---- the time-limit patterns of a case -------------------------------------------------------- *)
+Lemma timer_generous_never : forall c, timer_generous c = true -> forall k, case_timer c k = false.
+Proof.
+  intros c H k. unfold timer_generous in H. apply andb_true_iff in H. destruct H as [H1 H2].
+  apply negb_true_iff in H2. unfold case_timer. revert k.
+  induction (c_timer c) as [|b l IH]; intros k; destruct k; simpl in *; auto.
+  - apply andb_true_iff in H1. destruct H1 as [H1 _]. apply negb_true_iff in H1. exact H1.
+  - apply andb_true_iff in H1. destruct H1 as [_ H1]. auto.
+Qed.
+
+Lemma timer_expired_always : forall c, timer_expired_from_start c = true -> forall k, case_timer c k = true.
+Proof.
+  intros c H k. unfold timer_expired_from_start in H. apply andb_true_iff in H. destruct H as [H1 H2].
+  unfold case_timer. revert k.
+  induction (c_timer c) as [|b l IH]; intros k; destruct k; simpl in *; auto.
+  - apply andb_true_iff in H1. destruct H1 as [H1 _]. exact H1.
+  - apply andb_true_iff in H1. destruct H1 as [_ H1]. auto.
+Qed.
+
+Lemma not_cut_never : forall timer te, (forall k, timer k = false) -> not_cut timer te = te.
+Proof.
+  intros timer te H. unfold not_cut.
+  assert (E : filter (fun ki : nat * ind => negb (timer (fst ki))) (index_from 0 te) = index_from 0 te).
+  { induction (index_from 0 te) as [|ki l IH]; simpl; [reflexivity|]. rewrite H. simpl. rewrite IH. reflexivity. }
+  rewrite E. apply index_from_snd.
+Qed.
+
+(* the metric-0 call log of the model, for either dispatcher *)
+Definition case_te (c : case) : list ind :=
+  if c_par c then to_evaluate (rev (c_pop c)) else to_evaluate (c_pop c).
+
+Lemma model_metric0 : forall c out lg,
+  NoDup (map uid (to_evaluate (c_pop c))) -> metrics (case_objective c) <> [] ->
+  model_run (fun l => l) c = (Ok out, lg) ->
+  exists extra, metric0_graphs lg = map (case_eff c) (not_cut (case_timer c) (case_te c)) ++ extra.
+Proof.
+  intros c out lg ND Hne E. unfold case_eff, case_te. destruct (c_par c) eqn:Ep.
+  - rewrite (model_run_id_par c Ep) in E.
+    destruct (callback_log_par (case_objective c) (case_delegate c) (case_timer c) (c_pop c) ND) as [_ C2].
+    rewrite E in C2. simpl in C2. rewrite (C2 Hne). unfold reached_par. eexists. reflexivity.
+  - rewrite (model_run_id_seq c Ep) in E.
+    destruct (callback_log_seq (case_objective c) (case_timer c) (c_pop c) ND) as [_ C2].
+    rewrite E in C2. simpl in C2. rewrite (C2 Hne). exists []. rewrite app_nil_r. reflexivity.
+Qed.
+
+Lemma count_case_te : forall c (p : ind -> bool), count p (case_te c) = count p (to_evaluate (c_pop c)).
+Proof.
+  intros. unfold case_te. destruct (c_par c); [|reflexivity]. rewrite to_evaluate_rev. apply count_rev.
+Qed.
+
+Theorem oracle_generous_on_model : forall c,
+  in_scope c = true -> c_nmetrics c <> 0 -> labels_ok c -> clause_generous c (model_observed c) = true.
+Proof.
+  intros c Hs Hn Hl. apply in_scope_iff in Hs. destruct Hs as [ND Hdis].
+  pose proof (case_metrics_nonempty c Hn) as Hne.
+  destruct (model_observed_facts c ND) as [out [lg [E _]]].
+  unfold clause_generous. destruct (timer_generous c) eqn:Eg; [|reflexivity]. simpl.
+  pose proof (timer_generous_never c Eg) as Hnever.
+  destruct (model_metric0 c out lg ND Hne E) as [extra Hm].
+  unfold model_observed. rewrite E. apply forallb_forall. intros i Hi. apply Nat.leb_le. simpl.
+  rewrite Hm, (not_cut_never _ _ Hnever), count_app, count_map, count_case_te.
+  unfold geff_of. simpl.
+  rewrite (count_ext_in _ (fun j => Nat.eqb (computed_for (model_deleg c) (gr j)) (computed_for (model_deleg c) (gr i)))
+                          (fun x => Nat.eqb (computed_for (model_deleg c) (gr i)) (case_eff c x))).
+  - unfold unevaluated. lia.
+  - intros j Hj. unfold unevaluated in Hj. rewrite (Hl j Hj). apply Nat.eqb_sym.
+Qed.
+
+Lemma fallback_spec_length : forall o cg inds, length (fallback_spec o cg inds) <= 1.
+Proof. intros. unfold fallback_spec. destruct (first_evaluable o cg inds); simpl; lia. Qed.
+
+Theorem oracle_expired_on_model : forall c,
+  in_scope c = true -> c_nmetrics c <> 0 -> labels_ok c -> clause_expired c (model_observed c) = true.
+Proof.
+  intros c Hs Hn Hl. apply in_scope_iff in Hs. destruct Hs as [ND Hdis].
+  pose proof (case_metrics_nonempty c Hn) as Hne.
+  unfold clause_expired. destruct (timer_expired_from_start c) eqn:Ee; [|reflexivity]. simpl.
+  pose proof (timer_expired_always c Ee) as Halways.
+  unfold model_observed. destruct (c_par c) eqn:Ep.
+  - rewrite (model_run_id_par c Ep).
+    pose proof (expired_timer_fallback (case_objective c) (case_delegate c) (case_timer c) (c_pop c) ND Halways) as F.
+    destruct (evaluate_with_cache (case_objective c) (case_delegate c) (case_timer c) (c_pop c)) as [r lg].
+    simpl in F. subst r. cbn [o_out]. unfold preevaluated, unevaluated.
+    rewrite to_skip_rev. destruct (to_skip (c_pop c)) as [|p ps] eqn:Es.
+    + (* nothing pre-evaluated: the forced evaluation *)
+      cbn [rev].
+      set (ob := {| o_raised := false;
+                    o_out := fallback_spec (case_objective c) (eff_graph (case_delegate c) (c_pop c)) (rev (c_pop c));
+                    o_log := lg; o_deleg := model_deleg c |}).
+      assert (G : forall i, In i (to_evaluate (c_pop c)) ->
+                  valid (spec_fit (case_objective c) (geff_of ob i)) =
+                  valid (objective_value (case_objective c) (eff_graph (case_delegate c) (c_pop c) i))).
+      { intros i Hi. unfold geff_of. simpl. rewrite (Hl i Hi). unfold case_eff. rewrite Ep.
+        rewrite (objective_value_spec _ _ Hne). reflexivity. }
+      assert (L : length (o_out ob) <= 1) by (apply fallback_spec_length).
+      assert (X : existsb (fun i => valid (spec_fit (case_objective c) (geff_of ob i))) (to_evaluate (c_pop c))
+                  = negb (Nat.eqb (length (o_out ob)) 0)).
+      { unfold ob at 2. cbn [o_out]. unfold fallback_spec, first_evaluable.
+        destruct (find (fun i => valid (objective_value (case_objective c) (eff_graph (case_delegate c) (c_pop c) i)))
+                       (rev (c_pop c))) as [f|] eqn:Ef.
+        - apply find_some in Ef. destruct Ef as [Hf Hv]. apply (proj1 (in_rev_iff _ _ _)) in Hf.
+          assert (Hf' : In f (to_evaluate (c_pop c))).
+          { apply to_evaluate_In. split; auto. destruct (valid (fitness f)) eqn:Evf; auto.
+            assert (T : In f (to_skip (c_pop c))) by (apply to_skip_valid; auto). rewrite Es in T. destruct T. }
+          simpl. apply existsb_exists. exists f. split; auto. rewrite (G f Hf'). exact Hv.
+        - simpl. destruct (existsb _ (to_evaluate (c_pop c))) eqn:Ex; auto.
+          apply existsb_exists in Ex. destruct Ex as [i [Hi Hv]]. rewrite (G i Hi) in Hv.
+          pose proof (proj1 (find_none_iff _ _ _) Ef i) as T. simpl in T. rewrite T in Hv; [discriminate|].
+          apply in_rev_iff. apply to_evaluate_In in Hi. tauto. }
+      rewrite X. cbn [length Nat.eqb negb orb].
+      change (fallback_spec (case_objective c) (eff_graph (case_delegate c) (c_pop c)) (rev (c_pop c)))
+        with (o_out ob).
+      destruct (length (o_out ob)) as [|[|n]]; simpl; try reflexivity. lia.
+    + (* something pre-evaluated: it is what comes back *)
+      assert (Hl2 : length (rev (p :: ps)) = S (length ps)) by (rewrite rev_length; reflexivity).
+      destruct (rev (p :: ps)) as [|y s] eqn:Er; [simpl in Hl2; discriminate|]. reflexivity.
+  - rewrite (model_run_id_seq c Ep). rewrite (sequential_evaluate_closed _ _ _ ND). cbn [o_out].
+    unfold seq_spec. rewrite (survivors_expired _ _ _ _ Halways). simpl.
+    apply forallb_forall. intros x Hx. apply negb_true_iff. unfold is_new.
+    destruct (existsb _ (unevaluated c)) eqn:Ex; auto. apply existsb_exists in Ex.
+    destruct Ex as [i [Hi E]]. apply Nat.eqb_eq in E. exfalso. apply (Hdis i Hi). rewrite E. apply in_map. exact Hx.
+Qed.
+
+(* ---- clause_exactly on the model ---------------------------------------------------------------- *)
+Definition uid_in (out : list ind) (j : ind) : bool := existsb (fun x => Nat.eqb (uid x) (uid j)) out.
+
+Lemma uid_in_iff : forall out j, uid_in out j = true <-> exists x, In x out /\ uid x = uid j.
+Proof.
+  intros. unfold uid_in. rewrite existsb_exists. split; intros [x [Hx E]]; exists x; split; auto;
+    apply Nat.eqb_eq; auto.
+Qed.
+
+Lemma uid_in_survivors : forall o cg timer te ts k j,
+  NoDup (map uid te) -> In (k, j) (index_from 0 te) -> (forall x, In x ts -> uid x <> uid j) ->
+  uid_in (survivors o cg timer te ++ ts) j = negb (timer k) && valid (objective_value o (cg j)).
+Proof.
+  intros o cg timer te ts k j ND Hin Hts.
+  destruct (negb (timer k) && valid (objective_value o (cg j))) eqn:R.
+  - apply andb_true_iff in R. destruct R as [R1 R2]. apply negb_true_iff in R1.
+    apply uid_in_iff. exists (evaluated_ind o (cg j) j). split; [|reflexivity].
+    apply in_or_app. left. apply survivors_In. exists k, j. auto.
+  - destruct (uid_in (survivors o cg timer te ++ ts) j) eqn:U; [|reflexivity].
+    apply uid_in_iff in U. destruct U as [x [Hx Hu]]. apply in_app_or in Hx. destruct Hx as [Hx|Hx].
+    + assert (T : timer k = false /\ valid (objective_value o (cg j)) = true).
+      { apply (survivors_present_iff o cg timer te k j ND Hin). eauto. }
+      destruct T as [T1 T2]. rewrite T1, T2 in R. discriminate.
+    + exfalso. apply (Hts x Hx Hu).
+Qed.
+
+Lemma exactly_main : forall o cg timer te out g,
+  (forall k j, In (k, j) (index_from 0 te) ->
+     uid_in out j = negb (timer k) && valid (objective_value o (cg j))) ->
+  valid (objective_value o g) = true ->
+  count (Nat.eqb g) (map cg (not_cut timer te)) = count (fun j => Nat.eqb (cg j) g && uid_in out j) te.
+Proof.
+  intros o cg timer te out g H Hg. unfold not_cut.
+  rewrite count_map, count_map, count_filter.
+  rewrite <- (count_index_snd (fun j => Nat.eqb (cg j) g && uid_in out j) te 0).
+  apply count_ext_in. intros [k j] Hin. simpl. rewrite (H k j Hin).
+  destruct (Nat.eqb (cg j) g) eqn:E.
+  - apply Nat.eqb_eq in E. rewrite E, Nat.eqb_refl, Hg. simpl. destruct (timer k); reflexivity.
+  - rewrite Nat.eqb_sym, E. simpl. destruct (timer k); reflexivity.
+Qed.
+
+Lemma count_upto_first : forall (ev q : ind -> bool) l,
+  (forall j, q j = true -> ev j = true) ->
+  count q (upto_first ev l) = match find ev l with Some f => if q f then 1 else 0 | None => 0 end.
+Proof.
+  intros ev q l H. induction l as [|x r IH]; simpl; [reflexivity|].
+  destruct (ev x) eqn:E.
+  - unfold count. simpl. destruct (q x); reflexivity.
+  - unfold count in *. simpl. destruct (q x) eqn:Q; [rewrite (H x Q) in E; discriminate|]. exact IH.
+Qed.
+
+Lemma count_and_uid : forall (p : ind -> bool) l f,
+  NoDup (map uid l) -> In f l ->
+  count (fun j => p j && Nat.eqb (uid f) (uid j)) l = if p f then 1 else 0.
+Proof.
+  intros p l f ND Hf.
+  rewrite (count_ext_in _ _ (fun j => p f && Nat.eqb (uid j) (uid f))).
+  - destruct (p f); simpl.
+    + apply count_uid_one; auto.
+    + apply count_zero. reflexivity.
+  - intros j Hj. destruct (Nat.eqb (uid f) (uid j)) eqn:E.
+    + apply Nat.eqb_eq in E. assert (j = f) by (eapply (NoDup_map_inj_in _ _ uid l); eauto). subst.
+      rewrite Nat.eqb_refl. reflexivity.
+    + rewrite Nat.eqb_sym, E. rewrite !andb_false_r. reflexivity.
+Qed.
+
+Lemma exactly_fallback : forall o cg timer inds g,
+  NoDup (map uid inds) -> all_invalid inds ->
+  (forall k j, In (k, j) (index_from 0 inds) -> timer k = true \/ valid (objective_value o (cg j)) = false) ->
+  valid (objective_value o g) = true ->
+  count (Nat.eqb g) (map cg (not_cut timer inds) ++
+                     map cg (upto_first (fun i => valid (objective_value o (cg i))) inds))
+  = count (fun j => Nat.eqb (cg j) g && uid_in (fallback_spec o cg inds) j) inds.
+Proof.
+  intros o cg timer inds g ND Hinv Hempty Hg.
+  rewrite count_app.
+  (* nothing evaluable reached the objective in the fan-out *)
+  assert (Z : count (Nat.eqb g) (map cg (not_cut timer inds)) = 0).
+  { apply count_zero. intros g' Hg'. apply in_map_iff in Hg'. destruct Hg' as [j [Ej Hj]].
+    unfold not_cut in Hj. apply in_map_iff in Hj. destruct Hj as [[k j'] [Es Hf]]. simpl in Es. subst j'.
+    apply filter_In in Hf. destruct Hf as [Hin Ht]. simpl in Ht. apply negb_true_iff in Ht.
+    destruct (Hempty k j Hin) as [T|T]; [congruence|].
+    apply Nat.eqb_neq. intros ->. congruence. }
+  etransitivity; [apply f_equal2; [exact Z|reflexivity]|]. simpl. rewrite count_map.
+  rewrite (count_upto_first (fun i => valid (objective_value o (cg i))) (fun x => Nat.eqb g (cg x))).
+  2:{ intros j E. apply Nat.eqb_eq in E. rewrite <- E. exact Hg. }
+  unfold fallback_spec, first_evaluable.
+  destruct (find (fun i => valid (objective_value o (cg i))) inds) as [f|] eqn:Ef.
+  - apply find_some in Ef. destruct Ef as [Hf _].
+    rewrite (count_ext_in _ _ (fun j => Nat.eqb (cg j) g && Nat.eqb (uid f) (uid j))).
+    + rewrite (count_and_uid (fun j => Nat.eqb (cg j) g) inds f ND Hf). rewrite Nat.eqb_sym. reflexivity.
+    + intros j Hj. unfold uid_in. simpl. rewrite orb_false_r. reflexivity.
+  - symmetry. apply count_zero. intros j Hj. unfold uid_in. simpl. apply andb_false_r.
+Qed.
+
+Lemma all_invalid_to_evaluate : forall l, all_invalid l -> to_evaluate l = l.
+Proof.
+  induction l as [|a l IH]; intros H; [reflexivity|]. unfold to_evaluate in *. simpl.
+  rewrite (H a) by (simpl; auto). simpl. f_equal. apply IH. intros j Hj. apply H. simpl. auto.
+Qed.
+
+Theorem oracle_exactly_on_model : forall c,
+  in_scope c = true -> c_nmetrics c <> 0 -> labels_ok c -> clause_exactly c (model_observed c) = true.
+Proof.
+  intros c Hs Hn Hl. apply in_scope_iff in Hs. destruct Hs as [ND Hdis].
+  pose proof (case_metrics_nonempty c Hn) as Hne.
+  destruct (model_observed_facts c ND) as [out [lg [E _]]].
+  unfold clause_exactly, model_observed. rewrite E. apply forallb_forall. intros i Hi.
+  unfold unevaluated in Hi.
+  set (ob := {| o_raised := false; o_out := out; o_log := lg; o_deleg := model_deleg c |}).
+  assert (G : forall j, In j (to_evaluate (c_pop c)) -> geff_of ob j = case_eff c j).
+  { intros j Hj. unfold geff_of. simpl. apply Hl. exact Hj. }
+  rewrite (G i Hi). rewrite <- (objective_value_spec _ _ Hne).
+  destruct (valid (objective_value (case_objective c) (case_eff c i))) eqn:Ev; [|reflexivity]. simpl.
+  apply Nat.eqb_eq. cbn [o_log].
+  rewrite (count_ext_in _ (fun j => Nat.eqb (geff_of ob j) (case_eff c i) && in_out ob j)
+                          (fun j => Nat.eqb (case_eff c j) (case_eff c i) && uid_in out j) (unevaluated c)).
+  2:{ intros j Hj. unfold unevaluated in Hj. rewrite (G j Hj). reflexivity. }
+  unfold unevaluated. unfold case_eff in *. destruct (c_par c) eqn:Ep.
+  - (* parallel *)
+    rewrite (model_run_id_par c Ep) in E.
+    pose proof (NoDup_to_evaluate_rev _ ND) as ND'.
+    destruct (callback_log_par (case_objective c) (case_delegate c) (case_timer c) (c_pop c) ND) as [_ C2].
+    rewrite E in C2. simpl in C2. rewrite (C2 Hne). clear C2.
+    rewrite (evaluate_with_cache_closed _ _ _ _ ND) in E. inversion E as [[Eo El]]. clear E El.
+    unfold reached_par, mp_spec.
+    change (cgc (remote_compute_cache (case_delegate c) (rev (c_pop c)))) with (eff_graph (case_delegate c) (c_pop c)).
+    rewrite <- (count_rev _ _ (to_evaluate (c_pop c))), <- to_evaluate_rev.
+    destruct (survivors (case_objective c) (eff_graph (case_delegate c) (c_pop c)) (case_timer c)
+                        (to_evaluate (rev (c_pop c))) ++ to_skip (rev (c_pop c))) as [|y s] eqn:Es.
+    + (* forced evaluation *)
+      pose proof (proj1 (main_pass_empty_iff _ _ _ _) Es) as [Hskip Hempty].
+      assert (Hinv : all_invalid (rev (c_pop c))).
+      { intros j Hj. apply (proj1 (in_rev_iff _ _ _)) in Hj. destruct (valid (fitness j)) eqn:Evj; auto.
+        assert (T : In j (to_skip (c_pop c))) by (apply to_skip_valid; auto). rewrite Hskip in T. destruct T. }
+      rewrite (all_invalid_to_evaluate _ Hinv) in *.
+      apply exactly_fallback; auto.
+    + rewrite app_nil_r, <- Es. apply (exactly_main (case_objective c)); auto.
+      intros k j Hin. apply uid_in_survivors; auto.
+      intros x Hx Hu. assert (Hj : In j (to_evaluate (c_pop c))).
+      { apply index_from_In_snd in Hin. simpl in Hin. rewrite to_evaluate_rev in Hin.
+        apply (proj1 (in_rev_iff _ _ _)) in Hin. exact Hin. }
+      apply (Hdis j Hj). rewrite <- Hu. apply in_map. rewrite to_skip_rev in Hx.
+      apply (proj1 (in_rev_iff _ _ _)) in Hx. exact Hx.
+  - (* sequential *)
+    rewrite (model_run_id_seq c Ep) in E.
+    destruct (callback_log_seq (case_objective c) (case_timer c) (c_pop c) ND) as [_ C2].
+    rewrite E in C2. simpl in C2. rewrite (C2 Hne). clear C2.
+    rewrite (sequential_evaluate_closed _ _ _ ND) in E. inversion E as [[Eo El]]. clear E El.
+    unfold seq_spec. apply (exactly_main (case_objective c)); auto.
+    intros k j Hin. apply uid_in_survivors; auto.
+    intros x Hx Hu. assert (Hj : In j (to_evaluate (c_pop c))).
+    { apply index_from_In_snd in Hin. exact Hin. }
+    apply (Hdis j Hj). rewrite <- Hu. apply in_map. exact Hx.
+Qed.
+
+(* all clauses together: the executable property accepts every behaviour of the model *)
+Theorem oracle_accepts_model : forall c,
+  in_scope c = true -> c_nmetrics c <> 0 -> labels_ok c -> holds_b c (model_observed c) = true.
+Proof.
+  intros c Hs Hn Hl. unfold holds_b. rewrite Hs. simpl.
+  destruct (oracle_accepts_model_partial c Hs Hn Hl) as [H0 [H1 [H2 [H3 [H4 H5]]]]].
+  rewrite H0, H1, H2, H3, H4, H5.
+  rewrite (oracle_exactly_on_model c Hs Hn Hl), (oracle_generous_on_model c Hs Hn Hl),
+          (oracle_expired_on_model c Hs Hn Hl). reflexivity.
+Qed.
+
+(* when does the lookup by graph label find the delegate's graph for the individual? *)
+Lemma lookup_label_vs_uid : forall (rp : list ind) (outg : list graph) i,
+  NoDup (map gr rp) -> NoDup (map uid rp) -> In i rp ->
+  dict_get (gr i) (combine (map gr rp) outg) = dict_get (uid i) (combine (map uid rp) outg).
+Proof.
+  induction rp as [|a r IH]; simpl; intros outg i NDg NDu Hi; [tauto|].
+  destruct outg as [|g outg]; simpl; [reflexivity|].
+  inversion NDg as [|? ? Hng NDg']; inversion NDu as [|? ? Hnu NDu']; subst.
+  destruct Hi as [->|Hi].
+  - rewrite !Nat.eqb_refl. reflexivity.
+  - assert (E1 : Nat.eqb (gr i) (gr a) = false).
+    { apply Nat.eqb_neq. intros E. apply Hng. rewrite <- E. apply in_map. exact Hi. }
+    assert (E2 : Nat.eqb (uid i) (uid a) = false).
+    { apply Nat.eqb_neq. intros E. apply Hnu. rewrite <- E. apply in_map. exact Hi. }
+    rewrite E1, E2. apply IH; auto.
+Qed.
+
+Theorem labels_ok_sufficient : forall c,
+  c_par c = false \/ c_delegate c = None \/ (NoDup (map gr (c_pop c)) /\ NoDup (map uid (c_pop c))) ->
+  labels_ok c.
+Proof.
+  intros c H i Hi. unfold case_eff, model_deleg, case_delegate.
+  destruct (c_par c) eqn:Ep; [|reflexivity].
+  destruct (c_delegate c) as [s|] eqn:Ed; [|reflexivity].
+  destruct H as [H|[H|[NDg NDu]]]; try discriminate.
+  simpl. unfold eff_graph, cached_graph, remote_compute_cache.
+  rewrite assoc_is_dict_get, dict_get_of_pairs.
+  set (outg := delegate_of_spec s (map gr (rev (c_pop c)))).
+  assert (NDg' : NoDup (map gr (rev (c_pop c)))).
+  { rewrite map_rev. eapply Permutation_NoDup; [apply Permutation_rev|exact NDg]. }
+  assert (NDu' : NoDup (map uid (rev (c_pop c)))).
+  { rewrite map_rev. eapply Permutation_NoDup; [apply Permutation_rev|exact NDu]. }
+  assert (Hi' : In i (rev (c_pop c))).
+  { apply in_rev_iff. apply to_evaluate_In in Hi. tauto. }
+  rewrite (dict_get_perm _ (uid i) (rev (combine (map uid (rev (c_pop c))) outg))
+                         (combine (map uid (rev (c_pop c))) outg)).
+  - rewrite (lookup_label_vs_uid _ outg i NDg' NDu' Hi'). reflexivity.
+  - eapply Permutation_NoDup; [apply Permutation_map; apply Permutation_rev|].
+    apply combine_keys_NoDup. exact NDu'.
+  - apply Permutation_sym, Permutation_rev.
+Qed.
